@@ -72,7 +72,7 @@ def outcome_under(kind, base, options):
 def required_cells(tier):
     return (['agree:passed', 'agree:failed', 'agree:skipped', 'agree:disabled', 'style:auto', 'style:google',
              'style:freeform', 'exit:0', 'exit:1', 'leftover-pair:fail_reads_leftover', 'leftover-pair:pass_no_leftover',
-             'file-name:__main__.py', 'file-name:setup.py', 'textfile:agree', 'textfile:__name__-in-a-later-example', 'textfile:after-a-failed-example:reads_previous'] +
+             'file-name:__main__.py', 'file-name:setup.py', 'conftest-fills-xdoctest_namespace', 'textfile:agree', 'textfile:__name__-in-a-later-example', 'textfile:after-a-failed-example:reads_previous'] +
             ['options:' + (o or 'none') for o in set(OPTIONS)])
 
 
@@ -155,6 +155,13 @@ def check_module(ctx, idx, seed):
         ctx.cell('file-name:' + os.path.basename(path))
     with open(path, 'w') as f:
         f.write(om.src)
+    if idx % 4 == 2:
+        # a conftest.py beside the module fills the xdoctest_namespace fixture (the documented pattern) with a name the
+        # module defines itself
+        with open(os.path.join(os.path.dirname(path), 'conftest.py'), 'w') as f:
+            f.write('import pytest\n\n@pytest.fixture(autouse=True)\ndef add_names(xdoctest_namespace):\n'
+                    '    xdoctest_namespace["LIMIT_ZZ"] = 100\n    xdoctest_namespace["HELPER_ZZ"] = 1\n')
+        ctx.cell('conftest-fills-xdoctest_namespace')
     cwd = os.path.join(work, 'cwd')
     os.mkdir(cwd)
     case = {'index': idx, 'case_seed': seed}
